@@ -69,7 +69,10 @@ class BuildIds:
             return hashlib.sha1(b"src" + es.getVariantId()).digest()
         async def calc(steps):
             return [await self._bid(s) for s in steps]
-        return await es.getDigestCoro(calc, fingerprint=b"", platform=b"verif", relaxTools=True)
+        # the host fingerprint is replaced by a digest of the fingerprint script the step would run (empty if the step
+        # is not fingerprinted): which script runs is part of what the Build-Id is a function of
+        fp = hashlib.sha1(b"fp" + (es._getFingerprintScript() or "").encode()).digest() if es._isFingerprinted() else b""
+        return await es.getDigestCoro(calc, fingerprint=fp, platform=b"verif", relaxTools=True)
     def close(self):
         self.loop.close()
 
@@ -178,6 +181,32 @@ def with_sandbox_provider(model, pos=0):
                                                   "checkoutDep": False, "tools": None})
     return m
 
+def with_fp_tools(model):
+    """a recipe that uses two tools in different steps, one of them fingerprinted: the fingerprint of the build step must
+    only follow the tools the build step uses"""
+    m = copy.deepcopy(model)
+    E = projgen._empty_step
+    def body(**kw):
+        b = {"root": False, "inherit": [], "depends": [], "environment": {}, "privateEnvironment": {}, "metaEnvironment": {},
+             "provideVars": {}, "provideDeps": [], "provideTools": {}, "checkoutDeterministic": False, "import": False,
+             "shared": False, "relocatable": None, "tooldirs": False, "fp": False,
+             "steps": {"checkout": E(), "build": E(), "package": E()}}
+        b.update(kw)
+        return b
+    def dep(name, use):
+        return {"name": name, "use": use, "forward": False, "env": {}, "if": None, "checkoutDep": False, "tools": None}
+    fa = body(tooldirs=True, provideTools={"t0": {"path": ".", "libs": [], "fingerprint": True}})
+    fa["steps"]["package"]["script"] = 880
+    fb = body(tooldirs=True, provideTools={"t1": {"path": ".", "libs": []}})
+    fb["steps"]["package"]["script"] = 881
+    fc = body(depends=[dep("fa", ["tools"]), dep("fb", ["tools"])])
+    fc["steps"]["build"] = dict(E(), script=882, tools=["t1"])
+    fc["steps"]["package"] = dict(E(), script=883, tools=["t0"])
+    m["recipes"] += [{"name": "fc", "body": fc, "multi": None}, {"name": "fa", "body": fa, "multi": None},
+                     {"name": "fb", "body": fb, "multi": None}]
+    m["recipes"][0]["body"]["depends"].append(dep("fc", ["result"]))
+    return m
+
 def fp_recipes(model):
     """recipe names that are fingerprinted themselves or use a fingerprinted tool"""
     out = set()
@@ -266,6 +295,8 @@ def run_case(ctx, case):
             elif body.get("provideTools"):
                 t = sorted(body["provideTools"])[0]
                 body["provideTools"][t]["fingerprint"] = True
+    if case.get("fptools"):
+        model = with_fp_tools(model)
     if case.get("sandbox"):
         model = with_sandbox_provider(model)
     base = ctx.tmpdir()
@@ -301,6 +332,9 @@ def run_case(ctx, case):
         # T4 other hash seeds (subprocess; sampled)
         for seed in case.get("hashseeds") or []:
             labels.add("hashseed")
+            for f in os.listdir(B):          # no persistent package / tree cache written under the parent's hash seed
+                if f.startswith(".bob-"):
+                    os.unlink(os.path.join(B, f))
             same("hashseed:%s" % seed, ids_in_child(B, model, True, seed, base), True)
         # T6 extra roots: ids below r0 must not move
         if case.get("roots"):
@@ -437,6 +471,7 @@ def case_st(quick):
         "roots": st.lists(st.tuples(st.booleans(), I, st.one_of(st.none(), I)).map(list), max_size=2),
         "irrelevant": st.lists(st.tuples(st.sampled_from(["meta", "weakvar", "netaccess", "jobserver", "audit", "toolnet"]), I, I).map(list),
                                min_size=1, max_size=3),
+        "fptools": st.sampled_from([False, False, True]),
         "hashseeds": st.one_of(st.just([]), st.just([]), st.just([]), st.just([]), st.just([]), st.lists(st.sampled_from([1, 2, 3, 5, 7, 11]), min_size=1, max_size=1)),
         "weaktool": st.one_of(st.none(), st.tuples(I, I, I).map(list)),
     })
